@@ -130,6 +130,7 @@ class C02(core.Prop):
             out.append({'mode': 'mol', 'case': s, 'graph_keys': 'rev'})
         for base in bases[:6]:
             out.append({'mode': 'names', 'g': base, 'defs': [FRAGS_AA[0], FRAGS_AA[6]], 'aa': True, 'graph_keys': 'rev'})
+            out.append({'mode': 'names', 'g': base, 'defs': [FRAGS_CG[0], FRAGS_CG[1]], 'aa': False, 'graph_keys': 'rev'})
         # the other constructors / drivers / an earlier use of the library in the same process (pipeline.VARIANTS)
         nv = len(pl.VARIANTS) - 1
         for i, s in enumerate(mc[::(2 if tier == 'quick' else 1)]):
